@@ -303,6 +303,95 @@ fn environments_part<V: Variant>(ctx: &mut Ctx, tier: Tier, keys: &[KeyCtx<V>]) 
         t.into_part(ctx, part);
     }
 
+    // other outcomes of the lattice sampler for the same salt and message: had ffSampling returned z + (d, 0) instead
+    // of z, the signer would emit s2 + d*f (and s1 - d*g). d is a +-1 pattern on the K largest coefficients of f,
+    // aligned so that all K products add up in one coefficient of s2: honest signatures far from the typical set (one
+    // coefficient in the hundreds or thousands while the norm bound and the body length still hold), which no
+    // affordable number of sampler streams produces. For small K these are outcomes the bounded base sampler can
+    // return; the larger ones continue the ladder and are judged by Algorithm 16 like every signature here.
+    {
+        let key = &keys[0];
+        let n = V::N;
+        let msg: &[u8] = b"lattice translate";
+        let body = crate::refmodel::sig_len(n) - 41;
+        let (f, _g, _cf) = keycodec::sk_decode(&V::sk_to_bytes(&key.sk), n).unwrap_or_else(|| machinery_error("C01: the reference key codec cannot decode an honest secret key"));
+        // base signature: the shortest of 16 honest ones (leaves the most room below the bound)
+        let mut base: Option<(i128, Vec<u8>, Vec<i64>)> = None;
+        for st in 0..16u64 {
+            if let Ok(sig) = catch(|| with_stream(2_000_000 + st, || V::sign(msg, &key.sk))) {
+                let sb = V::sig_to_bytes(&sig);
+                if let (refverify::Verdict::Accept { norm }, Some(s2)) = (refverify::verify(n, msg, &sb[1..41], &sb[41..], &key.h), crate::refmodel::codec::decompress(&sb[41..], n)) {
+                    if base.as_ref().map(|b| norm < b.0).unwrap_or(true) {
+                        base = Some((norm, sb, s2));
+                    }
+                }
+            }
+        }
+        let mut t = Tally::default();
+        if let Some((_, sb, s2)) = base {
+            let mut order: Vec<usize> = (0..n).collect();
+            order.sort_by_key(|&i| (-(f[i].abs()), i));
+            let mut jobs = vec![];
+            for &j in &[0usize, 1, n / 2, n - 1] {
+                for &k in &[1usize, 2, 4, 8, 16, 32, 48, 64, 96, 128, 160, 192, 224, 256, 320, 384, 448, 512, 768, 1024] {
+                    if k <= n {
+                        for sgn in [1i64, -1] {
+                            jobs.push((j, k, sgn));
+                        }
+                    }
+                }
+            }
+            t = jobs
+                .par_iter()
+                .map(|&(j, k, sgn)| {
+                    let mut t = Tally::default();
+                    let mut d = vec![0i64; n];
+                    for &i in order.iter().take(k) {
+                        if f[i] == 0 {
+                            continue;
+                        }
+                        // d_m * f_i lands on coefficient j with m = j - i (mod n, sign flips on wrap-around)
+                        let (m, wrap) = if i <= j { (j - i, 1) } else { (j + n - i, -1) };
+                        d[m] = sgn * wrap * f[i].signum();
+                    }
+                    let df = crate::refmodel::poly::mul_z(&d, &f);
+                    let s2p: Vec<i64> = (0..n).map(|i| s2[i] + df[i] as i64).collect();
+                    t.cases += 1;
+                    let Some(bodyp) = crate::refmodel::codec::compress(&s2p, body) else {
+                        t.out("outcome does not fit the body (the signer would retry)");
+                        return t;
+                    };
+                    let mut sigb = sb[..41].to_vec();
+                    sigb.extend_from_slice(&bodyp);
+                    match refverify::verify(n, msg, &sigb[1..41], &sigb[41..], &key.h) {
+                        refverify::Verdict::Accept { .. } => {}
+                        _ => {
+                            t.out("outcome exceeds the norm bound (the signer would retry)");
+                            return t;
+                        }
+                    }
+                    let peak = s2p[j].abs();
+                    t.out(&format!("emitted with |s2[j]| in [{}, {})", peak / 128 * 128, peak / 128 * 128 + 128));
+                    t.calls += 1;
+                    let case = || json!({"kind":"translate","variant":n,"seed":key.seed,"j":j,"k":k,"sign":sgn,"sig":hex(&sigb)});
+                    match V::sig_from_bytes(&sigb) {
+                        Ok(sig) => judge_sig::<V>(&mut t, msg, &sig, &key.pk, &key.h, "emitted when the lattice sampler returns z + d instead of z", &case),
+                        Err(e) => t.viol(format!("signature-rejected:n={}:translate-decode", n), format!("{}: the signature the signer emits when the lattice sampler returns z + d (d = +-1 on {} coefficients, all adding up in s2[{}] = {}) is not decodable: {}", V::name(), k, j, s2p[j], e), case()),
+                    }
+                    t
+                })
+                .reduce(Tally::default, reduce);
+            if t.calls == 0 && t.nviol == 0 {
+                machinery_error("C01 lattice translates: no translate stayed within the bound (vacuity guard)");
+            }
+        } else {
+            t.viol(format!("sign-fails:n={}:translate-base", n), format!("{}: no honest base signature for the lattice translates (16 streams)", V::name()), json!({"kind":"translate","variant":n}));
+        }
+        let mut part = Part::new(&format!("sampler_outcomes_with_a_peak_{}", n), "one key, message and salt; the shortest of 16 honest signatures (z) and the signatures for the sampler outcomes z + (d, 0): s2 + d*f with d = +-1 on the K largest coefficients of f, K in {1,2,4,...,n}, aligned to add up in coefficient j in {0, 1, n/2, n-1}, both signs; those within the norm bound that fit the body (honest outputs with one coefficient up to ~1500) must verify; the others are counted");
+        part.exhaustive = true;
+        t.into_part(ctx, part);
+    }
+
     // key objects that replace one another in the same variable: whatever the library remembers about "the key at
     // this address" must not outlive the key
     {
@@ -633,6 +722,21 @@ pub fn replay(case: &Value) -> Result<Option<String>, String> {
                 t.found.into_iter().next().map(|(_, f)| f.what)
             }
             Ok(if variant == 512 { one::<V512>(seed, &msg, stream, &devs) } else { one::<V1024>(seed, &msg, stream, &devs) })
+        }
+        "translate" => {
+            let variant = case.get("variant").and_then(|x| x.as_u64()).ok_or("variant")?;
+            let seed = case.get("seed").and_then(|x| x.as_u64()).ok_or("seed")?;
+            let sigb = crate::ctx::unhex(case.get("sig").and_then(|x| x.as_str()).ok_or("sig")?);
+            fn one<V: Variant>(seed: u64, sigb: &[u8]) -> Option<String> {
+                let k = make_key::<V>(seed);
+                let mut t = Tally::default();
+                match V::sig_from_bytes(sigb) {
+                    Ok(sig) => judge_sig::<V>(&mut t, b"lattice translate", &sig, &k.pk, &k.h, "replay", &|| json!({})),
+                    Err(e) => return Some(format!("not decodable: {}", e)),
+                }
+                t.found.into_iter().next().map(|(_, f)| f.what)
+            }
+            Ok(if variant == 512 { one::<V512>(seed, &sigb) } else { one::<V1024>(seed, &sigb) })
         }
         "slot" => Err("re-run ./vf check C01 (the slot history is enumerated deterministically)".into()),
         "xof-stream" => Err("re-run ./vf check C01 (the stream family is enumerated deterministically)".into()),
